@@ -155,7 +155,7 @@ plan("C06", "c06.py", "hand-off chains x carriers (thread/inline/subprocess) x i
      "fromString are the level codec and its inverse; continue_task given such an id (bytes or text) returns a fresh started action with the same "
      "task_uuid at exactly that level, its start message at position 1, and raises only for a missing or malformed id; preserve_context returns f "
      "itself without a current action and otherwise reserves exactly one position; its closure calls f only while holding the token of an atomic "
-     "test-and-set on a lock that is never released (ghost-permission obligation at the call of f), with the very same arguments, returns f's "
+     "test-and-set on a lock that is never released (ghost-permission obligation at the call of f), with the very same arguments, *inside the action continue_task returned* (never directly in the originating action, also when f raises), returns f's "
      "result, lets only f's own exception escape (ghost RAN), raises TooManyCalls iff the lock was already taken, and restores the context; "
      "preserve_context owes the closure its variables (closure-environment obligations). Races and merge orders are explored by the bounded driver only; parsing of the merged logs is C09's part.",
      "Trusted: string library axioms (split at '@', level codec inverse, ASCII) used as ground instances and cross-checked natively, "
